@@ -1,9 +1,11 @@
 import Driver.Storage
 import Driver.Rns
 import Driver.Notif
+import Driver.Filetree
 import Canine.Query.Storage
 import Canine.Query.Rns
 import Canine.Query.Notif
+import Canine.Query.Filetree
 open Lean (Json FromJson ToJson fromJson? toJson)
 namespace Canine
 namespace Query
@@ -21,6 +23,10 @@ namespace Notif.Query
 deriving instance FromJson, ToJson for Q
 deriving instance FromJson, ToJson for Resp
 end Notif.Query
+namespace Filetree.Query
+deriving instance FromJson, ToJson for Q
+deriving instance FromJson, ToJson for Resp
+end Filetree.Query
 end Canine
 
 namespace Driver.Query
@@ -50,12 +56,19 @@ def checkNotif (j : Json) : Except String (Option String) := do
   let impl : Notif.Query.Resp ← getField j "resp" >>= fromJson?
   return cmpField "resp" (Notif.Query.run st q) impl
 
+def checkFiletree (j : Json) : Except String (Option String) := do
+  let st : Filetree.State ← getField j "state" >>= fromJson?
+  let q : Filetree.Query.Q ← getField j "q" >>= fromJson?
+  let impl : Filetree.Query.Resp ← getField j "resp" >>= fromJson?
+  return cmpField "resp" (Filetree.Query.run st q) impl
+
 def check (j : Json) : Except String (Option String) := do
   let sub : String ← getField j "sub" >>= fromJson?
   match sub with
   | "storage" => checkStorage j
   | "rns" => checkRns j
   | "notif" => checkNotif j
+  | "filetree" => checkFiletree j
   | s => throw s!"unknown query module {s}"
 
 end Driver.Query
